@@ -156,6 +156,69 @@ def teardown_probe(env):
                     env.count("round_trips_from_thread_local_destructor", 1)
 
 
+def _short(d):
+    return {k: (v if len(str(v)) < 40 else str(v)[:40] + "…") for k, v in d.items()}
+
+
+def reentrant_rng_probe(env):
+    """The caller's RNG is caller code: while the library waits for its bytes it may itself use the library on the same
+    thread (an RNG layered on HPKE key generation, a logging RNG that seals its audit record).  Every RNG-taking entry
+    point is called twice with identical arguments, once with a plain scripted RNG and once with one that performs a key
+    generation and a full round trip before every draw; the results must be identical and the nested uses must work."""
+    g = gen.G(env.rnd)
+    cw = cl.CaseW()
+    for i, kem in enumerate(gen.KEMS):
+        for j, aead in enumerate((gen.SEAL_AEADS[i % 3], 0xFFFF)):
+            s = cw.session(kem, gen.KDFS[(i + j) % 3], aead, sid="re%d_%d" % (i, j))
+            n = gen.nsk(kem)
+            gen.add_keys(s, g, kem, "kR")
+            gen.add_keys(s, g, kem, "kS")
+            rng = g.raw(n).hex() + "aa" * 8
+            for re_ in (0, 1, 0):
+                s.call("gen_keypair", rng=rng, reenter=re_, pair="gen")
+                s.call("encap", pkr="$kR.pk", rng=rng, reenter=re_, pair="encap")
+                s.call("encap", pkr="$kR.pk", sks="$kS.sk", pks="$kS.pk", rng=rng, reenter=re_, pair="encap-auth")
+                for mode in (0, 2):
+                    extra = dict(sks="$kS.sk", pks="$kS.pk") if mode == 2 else {}
+                    s.call("setup_s", mode=mode, pkr="$kR.pk", info="6162", rng=rng, reenter=re_, out="C%d%d" % (mode, re_), pair="setup%d" % mode, **extra)
+                    if aead != 0xFFFF:
+                        s.call("ss_seal", mode=mode, pkr="$kR.pk", info="6162", pt="00112233", aad="44", rng=rng, api="inplace", reenter=re_, pair="ss%d" % mode, **extra)
+    text = cw.text()
+    for b in ("checked", "checked-std", "checked-noalloc"):
+        res = env.drive("reentrant", text, build=b)
+        if res.timed_out:
+            env.inconclusive.append("re-entrant RNG probe: watchdog")
+            continue
+        nested = 0
+        for ss in res.sessions:
+            ref = {}
+            for o in (ss.all_ops or ss.ops):
+                pair = o.args.get("pair")
+                if pair is None:
+                    continue
+                env.count("evaluations", 1)
+                if o.ret is None:
+                    env.violation("C18:reentrant_rng:noreturn", "%s with a re-entrant RNG never returned (%s build)" % (o.op, b), case_text=ss.case_text(o.id), workload="placement")
+                    break
+                vis = {k: v for k, v in o.ret.items() if k not in ("nested", "afp", "bn", "es")}
+                if o.args.get("reenter") == "1":
+                    nres = (o.ret.get("nested") or "-").split(",")
+                    nested += len([x for x in nres if x == "ok"])
+                    if "ok" in o.ret and any(x != "ok" for x in nres):
+                        env.violation("C18:reentrant_rng:nested_use_failed", "while %s waited for RNG bytes, the RNG's own use of the library on the same thread gave %s (%s build)" % (o.op, nres, b),
+                                      case_text=ss.case_text(o.id), workload="placement")
+                if pair not in ref:
+                    ref[pair] = (o, vis)
+                elif vis != ref[pair][1]:
+                    env.violation("C18:reentrant_rng:%s" % o.op, "%s gives %s with a plain RNG and %s when the RNG uses the library while it is being asked for bytes (same bytes handed out, %s build)" % (
+                        o.op, _short(ref[pair][1]), _short(vis), b), case_text=ss.case_text(o.id), workload="placement")
+                else:
+                    env.seen(("reentrant", ss.ids, pair, b))
+        env.count("nested_library_uses_inside_rng:%s" % b, nested)
+        if nested == 0 and not env.violations:
+            env.inconclusive.append("re-entrant RNG probe: no nested use succeeded on the %s build" % b)
+
+
 def build_storm(env, scale):
     """many threads, each with its own recipient key of the same KEM, decapsulating at once"""
     g = gen.G(env.rnd)
@@ -427,6 +490,7 @@ def run(env):
     env.extra_cov["noalloc_build_placements"] = na_placements
     thread_creation_probe(env)
     teardown_probe(env)
+    reentrant_rng_probe(env)
     stext = build_storm(env, env.pick(1, 6)).text()
     for b in ("checked", "checked-std", "checked-noalloc"):
         rs = env.drive("storm", stext, build=b)
@@ -450,10 +514,18 @@ def run(env):
     scheds = []
     for sd in seeds:
         scheds += ["perm:%d" % sd, "interleave:%d:8" % sd, "interleave:%d:64" % (sd + 1), "migrate:4:%d" % sd, "migrate:16:%d" % (sd + 1)]
-    scheds += ["threads:2", "threads:4", "threads:16"]
+    # "stack:64": sequential, every session on a thread with a 64 KiB stack (the unchanged library needs < 32 KiB)
+    scheds += ["threads:2", "threads:4", "threads:16", "stack:64"]
     orders = set()
     for sc in scheds:
         res = env.drive("placed", text, sched=sc)
+        if sc.startswith("stack:") and res.rc not in (0, None) and "overflowed its stack" in (res.stderr or ""):
+            last = [(ss, o) for ss in res.sessions for o in (ss.all_ops or ss.ops) if o.ret is None]
+            ss, o = last[-1] if last else (res.sessions[-1], None)
+            env.violation("C18:needs_large_stack:%s" % (o.op if o else "?"),
+                          "on a thread with a %s KiB stack the process died with a stack overflow in %s (the same calls complete on the main thread, and on such a thread before the change: the unchanged library needs < 32 KiB): the outcome depends on the thread the call runs on" % (sc.split(":")[1], o.raw[:160] if o else "?"),
+                          case_text=ss.case_text(o.id) if o else None, workload="placement")
+            continue
         env.require_complete(res, sc)
         compare(env, sc, base, res, placements)
         check_par(env, res)
